@@ -530,7 +530,8 @@ def run_history(ctx, tag, src, history, params, cases, meta, expect_hier=None, f
       ctx.violation(f'C15:sim-crash-{type(e).__name__}:{tb.name}', f'{tag}: the replaced design cannot be simulated ({type(e).__name__}: {str(e)[:150]} in {tb.name}, {os.path.basename(tb.filename)}:{tb.lineno}) while the direct build simulates',
                     dict(replay, traceback=traceback.format_exc()[-1500:]))
   for f in ('/tmp/upblk-dag.gv', '/tmp/upblk-dag.gv.pdf'):
-    if os.path.exists(f): os.remove(f)
+    try: os.remove(f)
+    except OSError: pass
   if expect_hier is not None:
     H, rs = expect_hier
     def case(rows, both):
@@ -722,8 +723,10 @@ def run(ctx):
     run_history(ctx, tag, DIRECTED_SRC + f'\nTop = {topc}\n', hist, params, cases, meta, feats=('directed',))
   N = 150 if quick else 1200
   for j in range(N):
-    g = Gen(random.Random(rng.randrange(1 << 30)), f'R{j}').build()
-    history, (H0, rs) = random_history(ctx, g, j)
+    while True:
+      g = Gen(random.Random(rng.randrange(1 << 30)), f'R{j}').build()
+      history, (H0, rs) = random_history(ctx, g, j)
+      if history: break
     params = []
     if rng.random() < 0.15:
       # a parameter pushed down by name to one of the slots of the base design (also exercised: slots that get replaced)
